@@ -118,19 +118,26 @@ def rule_init(R):
              "(quota + in-flight = min(Receive Maximum, capacity)); found %s" % found, where=qs[0][3])
     # Receive Maximum 0 is rejected
     ok0 = False
-    for cb in f.children(hcode):
+    for cb in [hcode] + list(f.children(hcode)):
         for bb in cb.switches:
+            if bb not in cb.reachable:
+                continue
             si = cb.switch_info(bb)
-            subj = si["subject"]
+            subj = peel(si["subject"])
+            te = fe = None
             if subj[0] == "bin" and subj[1] == "Eq" and any(x[0] == "downcast" and x[2] == "ReceiveMaximum" for x in walk(subj)) \
                     and any(x[0] == "const" and x[2] == 0 for x in (subj[2], subj[3])):
-                te = si["edges"].get(True)
-                if te is not None:
-                    # true edge returns Err(InvalidPacket) without storing
-                    reach = cb.reach([te], avoid=[si["edges"].get(False)])
-                    errs = [1 for bb2 in reach for s in cb.blocks[bb2]["stmts"] if s["k"] == "assign" and "agg" in s["rv"]
-                            and s["rv"]["agg"].get("variant") == "Err"]
-                    ok0 = bool(errs)
+                te, fe = si["edges"].get(True), si["edges"].get(False)
+            elif chain(subj)[1][-2:] == ["@ReceiveMaximum", "0"] and any(k_ == 0 and not isinstance(k_, bool) for k_ in si["edges"]):
+                # `Property::ReceiveMaximum(0) => return Err(..)`: a match on the value itself
+                te = [t_ for k_, t_ in si["edges"].items() if k_ == 0 and not isinstance(k_, bool)][0]
+                fe = si["otherwise"]
+            if te is not None:
+                # the zero edge returns Err(InvalidPacket) without storing
+                reach = cb.reach([te], avoid=[fe] if fe is not None else [])
+                errs = [1 for bb2 in reach for s in cb.blocks[bb2]["stmts"] if s["k"] == "assign" and "agg" in s["rv"]
+                        and s["rv"]["agg"].get("variant") == "Err"]
+                ok0 = ok0 or bool(errs)
     R.ob("init/zero-rejected", ok0, "a CONNACK Receive Maximum of 0 is rejected as an invalid packet", where=hb.span)
     a = roles.connack_property_arms(f).get("ReceiveMaximum")
     okh = a is not None and a["unconditional"] and bool(roles.arm_values_for(a, RUNTIME, "send_quota")) and \
